@@ -232,9 +232,10 @@ def cf_truth_family():
 def nest_family(rng, n: int):
     """Perfect and imperfect scf.for nests with iter_args, used and unused induction variables, effects in the body."""
     for _ in range(n):
-        olb, oub, ost = rng.choice([0, 0, 0, 1, -1]), rng.choice([0, 1, 2, 3, 4]), rng.choice([1, 1, 2, 3])
+        olb, oub, ost = rng.choice([0, 0, 0, 0, 1, -1]), rng.choice([0, 1, 2, 3, 4]), rng.choice([1, 1, 2, 3])
         ilb, iub, ist = rng.choice([0, 0, 1, 2, -2]), rng.choice([0, 2, 3, 5]), rng.choice([1, 1, 2])
-        use_i, use_j = rng.random() < 0.5, rng.random() < 0.5
+        unused = rng.random() < 0.5          # flattening applies when neither induction variable is used
+        use_i, use_j = (False, False) if unused else (rng.random() < 0.6, rng.random() < 0.6)
         eff = rng.random() < 0.4
         sym = rng.random() < 0.3
         k1, k2 = rng.choice([1, 2, 3, -1, 0]), rng.choice([0, 1, 5, -2])
